@@ -30,7 +30,10 @@ for d in sorted(Path('/verif/seeded').iterdir()):
             if r and r.group(1) not in rules:
                 rules.append(r.group(1))
     STRENGTHENED.update(json.loads(Path('/verif/seeded/strengthened.json').read_text()) if Path('/verif/seeded/strengthened.json').exists() else {})
-    first = 'missed' if d.name in STRENGTHENED else 'caught'
+    NOT_CAUGHT = json.loads(Path('/verif/seeded/not_caught.json').read_text()) if Path('/verif/seeded/not_caught.json').exists() else {}
+    first = 'missed' if d.name in STRENGTHENED or d.name in NOT_CAUGHT else 'caught'
+    if d.name in NOT_CAUGHT:
+        STRENGTHENED[d.name] = 'NOT CAUGHT (value-level; reason in seeded/not_caught.json)'
     summ = m.get('summary', '').replace('|', '/').replace('\n', ' ')
     summ = summ if len(summ) < 200 else summ[:197] + '...'
     rows.append(f"| {d.name} | {prop} | {summ} | {first} | {', '.join(rules) or '-'} | {STRENGTHENED.get(d.name, '')} |")
